@@ -37,3 +37,33 @@ Definition float_is_finite (f : float) : bool :=
 
 Definition fl_eqb_list (a b : list float) : bool :=
   Nat.eqb (length a) (length b) && forallb (fun q => PrimFloat.eqb (fst q) (snd q)) (combine a b).
+
+(* np.sum of a contiguous 1-D float64 array: numpy's pairwise summation (umath loops, pairwise_sum):
+   fewer than 8 entries are added sequentially starting from 0.0; up to 128 entries use 8 interleaved partial
+   sums combined as ((r0+r1)+(r2+r3))+((r4+r5)+(r6+r7)) followed by the remainder; longer arrays are split at
+   n/2 rounded down to a multiple of 8.  (Validated bit-for-bit against numpy by the C17 check on every run.) *)
+Definition fsum_seq (a : list float) (s : float) : float := fold_left PrimFloat.add a s.
+Definition add8 (r b : list float) : list float := map (fun q => PrimFloat.add (fst q) (snd q)) (combine r b).
+Fixpoint blocks8 (nb : nat) (r rest : list float) : list float * list float :=
+  match nb with
+  | O => (r, rest)
+  | S k => blocks8 k (add8 r (firstn 8 rest)) (skipn 8 rest)
+  end.
+Definition sum_block (a : list float) : float :=
+  let q := blocks8 (length a / 8 - 1) (firstn 8 a) (skipn 8 a) in
+  match fst q with
+  | [r0; r1; r2; r3; r4; r5; r6; r7] =>
+      fsum_seq (snd q) (PrimFloat.add (PrimFloat.add (PrimFloat.add r0 r1) (PrimFloat.add r2 r3))
+                                      (PrimFloat.add (PrimFloat.add r4 r5) (PrimFloat.add r6 r7)))
+  | _ => PrimFloat.nan
+  end.
+Fixpoint np_sum_fuel (fuel : nat) (a : list float) : float :=
+  let n := length a in
+  if Nat.ltb n 8 then fsum_seq a PrimFloat.zero
+  else if Nat.leb n 128 then sum_block a
+  else match fuel with
+       | O => PrimFloat.nan
+       | S f => let h := (n / 2)%nat in let n2 := (h - h mod 8)%nat in
+                PrimFloat.add (np_sum_fuel f (firstn n2 a)) (np_sum_fuel f (skipn n2 a))
+       end.
+Definition np_sum (a : list float) : float := np_sum_fuel 64 a.
